@@ -78,9 +78,9 @@ pub fn common_actions() -> Vec<Act> {
 pub fn out_of_range(w: Which) -> Vec<Act> {
     let n = wname(w);
     vec![
-        msg1(&format!("STAT:{n}:ENAB 65536"), U::Fail(RefErr::std(-222))),
-        msg1(&format!("STAT:{n}:PTR -1"), U::Fail(RefErr::std(-222))),
-        msg1(&format!("STAT:{n}:NTR"), U::Fail(RefErr::std(-109))),
+        msg1(&format!("STAT:{n}:ENAB 65536"), U::Fail(RefErr::lib(-222))),
+        msg1(&format!("STAT:{n}:PTR -1"), U::Fail(RefErr::lib(-222))),
+        msg1(&format!("STAT:{n}:NTR"), U::Fail(RefErr::lib(-109))),
         msg1(&format!("STAT:{n}:ENAB 65535"), U::RegSet(w, Field::Enable, 65535)),
         msg1(&format!("STAT:{n}:COND 1"), U::Fail(RefErr::std(-113).any_of_class())),
     ]
